@@ -55,7 +55,7 @@ impl Sub for RevComp {
         "revcomp"
     }
     fn rule(&self) -> &'static str {
-        "DNA count matrix (width 0..30, any content incl. wildcard counts) x strand-symmetric pseudocounts and background x arbitrary scoring matrix (finite / -inf cells, finite wildcard column) x DNA sequence (L 0..300); (i) rc(rc(X)) == X exactly and rc(X) == the mirrored model for count, frequency, weight and scoring matrices; (ii) rc commutes with to_freq / to_weight / to_scoring (tol 1e-5); (iii) score_rc[L-M-i] on rc(seq) == score[i] on seq within the summation bound, through the generic scorer and the dispatcher forced to an arm; non-trivial = M >= 2 and rc(X) != X"
+        "DNA count matrix (width 0..30, any content incl. wildcard counts) x strand-symmetric pseudocounts and background x arbitrary scoring matrix (finite / -inf cells, finite wildcard column) x DNA sequence (L 0..300); (i) rc(rc(X)) == X exactly and rc(X) == the mirrored model for count, frequency, weight and scoring matrices; (ii) rc commutes with to_freq / to_weight / to_scoring (tol 1e-5); (iii) min_score / max_score of rc(pssm) equal those of pssm; (iv) score_rc[L-M-i] on rc(seq) == score[i] on seq within the summation bound, through the generic scorer and the dispatcher forced to an arm; non-trivial = M >= 2 and rc(X) != X"
     }
     fn cases(&self, tier: Tier) -> u64 {
         tier.pick(60_000, 1_500_000)
@@ -159,6 +159,17 @@ impl Sub for RevComp {
                 let a = prc.matrix()[i][j];
                 if !(a == mir[i][j] || (a.is_nan() && mir[i][j].is_nan())) {
                     return Verdict::Fail(Failure::new("scoring:mirror", format!("rc(pssm)[{}][{}] = {} expected {}", i, j, a, mir[i][j])));
+                }
+            }
+        }
+        // the attainable score range is strand-independent (each row keeps its set of non-wildcard cells)
+        if mm >= 1 {
+            for (name, a, b) in [("min_score", prc.min_score(), pssm.min_score()), ("max_score", prc.max_score(), pssm.max_score())] {
+                info.comparisons += 1;
+                let scale: f32 = cells.iter().map(|r| r[..4].iter().filter(|x| x.is_finite()).fold(0.0f32, |acc, x| acc.max(x.abs()))).sum();
+                let ok = a == b || (a.is_nan() && b.is_nan()) || (a.is_finite() && b.is_finite() && (a - b).abs() <= 1e-5 * (1.0 + scale));
+                if !ok {
+                    return Verdict::Fail(Failure::new(format!("scoring:{}", name), format!("rc(pssm).{}() = {} but pssm.{}() = {}", name, a, name, b)));
                 }
             }
         }
